@@ -16,7 +16,8 @@ RULE = ("Bool-typed filters of the SQLite fragment from the typed grammar (field
         "parentheses, x 1-6 rows over the adversarial value domain (NULLs, negatives, zero, empty strings, "
         "strings with ' % _ \\ \" ; --). Oracle: SELECT id FROM item WHERE <emitted clause> on real SQLite vs "
         "the reference evaluator, on decided rows only; an sqlite3 error or a library refusal is a violation. "
-        "Non-trivial: >= 2 operator/function nodes and >= 1 decided row; distinct by (filter text, rows).")
+        "Non-trivial: >= 2 operator/function nodes and >= 1 decided row; distinct by (filter text, rows)."
+        " Plus a value-level sweep: for every arithmetic operator pair in both nestings (and unary minus / indexof / length templates as operands) E and every value v that E takes on a fixed 12-row table, the filter `E eq v` must select exactly the rows where E = v. Rows get 'confuser' strings derived from the literal needles of contains/startswith/endswith (needle embedded, % replaced by text, _ by one character, escape characters dropped). Integer div/mod are decided with truncation / dividend-sign semantics.")
 ASSUMPTIONS = [
     "PRAGMA case_sensitive_like=ON (LIKE case folding is an engine setting of the caller)",
     "datetimes are stored as 'YYYY-MM-DD HH:MM:SS' UTC text, dates as 'YYYY-MM-DD'",
